@@ -23,13 +23,27 @@ EXTENDS Eval
 
 CONSTANT DEV_MissingDynAnchorFails
 
+\* Seeded mutations of the evaluator, each of a kind a maintainer could plausibly introduce (every one was
+\* produced by an independent agent against the real code, see seeded/INDEX.md).  With MUT_Eval = "none" the
+\* module is the code as it is; for every other value TLC must refute `Refines` on some family (selftest):
+\*   "anyOfShort"      anyOf stops at the first branch that validates (annotations of later branches lost)
+\*   "mergeOnFailure"  a failed subschema still hands its annotations to the caller
+\*   "containsNoNote"  contains with minContains 0 and no maxContains is skipped, indexes not noted
+\*   "dynSkipSelf"     the dynamic-scope search leaves out the frame of the schema holding the $dynamicRef
+\*   "d7RefLate"       draft-07: the early return of $ref comes after the scalar assertions
+\*   "emptyMerge"      merge into an "empty" receiver copies the callee, dropping the receiver's allProps
+\*   "dynNoBase"       the dynamic-scope search looks at the stacked schemas themselves, not at their resources
+CONSTANT MUT_Eval
+
 NoAnns == [allItems |-> FALSE, endIndex |-> 0, evIdx |-> {}, allProps |-> FALSE, evProps |-> {}]
 CR(ok, anns) == [ok |-> ok, anns |-> anns]
 
 Max2(a, b) == IF a > b THEN a ELSE b
 
 \* annotations.merge
+IsEmptyMut(a) == ~a.allItems /\ a.endIndex = 0 /\ a.evIdx = {} /\ a.evProps = {}      \* (forgets allProps)
 Merge(a, b) ==
+  IF MUT_Eval = "emptyMerge" /\ IsEmptyMut(a) THEN b ELSE
   [allItems |-> a.allItems \/ b.allItems,
    endIndex |-> Max2(a.endIndex, b.endIndex),
    evIdx    |-> a.evIdx \cup b.evIdx,
@@ -44,15 +58,17 @@ DenProps(an, v) == IF v.t # "obj" THEN {} ELSE
 
 \* "valid(s, &anns)" / "st.validate(instance, s, &anns)": returns the callee
 \* verdict and the caller's annotations after the call (merged only on success)
-Call(r, anns) == IF r.ok THEN Merge(anns, r.anns) ELSE anns
+Call(r, anns) == IF r.ok \/ MUT_Eval = "mergeOnFailure" THEN Merge(anns, r.anns) ELSE anns
 
 \* the stack search of validate.go lines 227-238
-DynLookup(U, dr, stack, nm) ==
-  LET hits == {i \in DOMAIN stack : DeclaresDyn(U, dr, ResAddr(U, dr, stack[i]), nm) # {}}
+DynLookup(U, dr, stack0, nm) ==
+  LET stack == IF MUT_Eval = "dynSkipSelf" THEN SubSeq(stack0, 1, Len(stack0) - 1) ELSE stack0
+      hits == {i \in DOMAIN stack : IF MUT_Eval = "dynNoBase" THEN nm \in DynAnchorsOf(dr, Node(U, stack[i]))
+                                     ELSE DeclaresDyn(U, dr, ResAddr(U, dr, stack[i]), nm) # {}}
   IN IF hits = {} THEN NoTarget
      ELSE LET o  == CHOOSE i \in hits : \A j \in hits : i <= j
               ra == ResAddr(U, dr, stack[o])
-          IN Addr(ra.d, CHOOSE p \in DeclaresDyn(U, dr, ra, nm) : TRUE)
+          IN IF MUT_Eval = "dynNoBase" THEN stack[o] ELSE Addr(ra.d, CHOOSE p \in DeclaresDyn(U, dr, ra, nm) : TRUE)
 
 \* Sequential folds over the children of a keyword.  Each returns
 \* [ok, anns]; they stop at the first failure exactly where the code returns.
@@ -68,7 +84,7 @@ FoldAll(U, dr, a, v, st, kw, i, anns) ==
 RECURSIVE FoldAny(_, _, _, _, _, _, _, _)
 \* anyOf / oneOf: visit all; returns [cnt, anns]
 FoldAny(U, dr, a, v, st, kw, i, acc) ==
-  IF i > Len(Node(U, a)[kw]) THEN acc
+  IF i > Len(Node(U, a)[kw]) \/ (MUT_Eval = "anyOfShort" /\ kw = "anyOf" /\ acc.cnt > 0) THEN acc
   ELSE LET r == Cv(U, dr, Child(a, SegI(kw, i)), v, st)
        IN FoldAny(U, dr, a, v, st, kw, i + 1,
                   [cnt |-> acc.cnt + (IF r.ok THEN 1 ELSE 0), anns |-> Call(r, acc.anns)])
@@ -93,6 +109,8 @@ Cv(U, dr, a, v, stack) ==
       st == Append(stack, a)                       \* push
       C(seg, w) == Cv(U, dr, Child(a, seg), w, st) \* child call with a nil callerAnns or &anns
       F == CR(FALSE, NoAnns)
+      \* (under "mergeOnFailure" a failing frame still reports what it had recorded)
+      Fa(x) == CR(FALSE, IF MUT_Eval = "mergeOnFailure" THEN x ELSE NoAnns)
   IN
   \* a boolean schema is {} or {"not": {}} after Unmarshal
   IF Has(s, "bool") THEN (IF s.bool THEN CR(TRUE, NoAnns) ELSE F) ELSE
@@ -101,10 +119,11 @@ Cv(U, dr, a, v, stack) ==
       refR == IF Has(s, "ref") /\ refT # NoTarget THEN Cv(U, dr, refT, v, st) ELSE F
   IN
   IF Has(s, "ref") /\ ~refR.ok THEN F ELSE
-  IF Has(s, "ref") /\ dr = "d7" THEN CR(TRUE, NoAnns) ELSE   \* returns before the merge
+  IF Has(s, "ref") /\ dr = "d7" /\ MUT_Eval # "d7RefLate" THEN CR(TRUE, NoAnns) ELSE   \* returns before the merge
   LET anns1 == IF Has(s, "ref") THEN refR.anns ELSE NoAnns IN
   \* ---- type, enum, const, numbers, strings ----
   IF ~(TypeOK(s, v) /\ EnumOK(s, v) /\ NumOK(s, v) /\ StrOK(s, v)) THEN F ELSE
+  IF Has(s, "ref") /\ dr = "d7" THEN CR(TRUE, NoAnns) ELSE   \* (only reached under MUT d7RefLate)
   \* ---- $dynamicRef ----
   LET dynOn == Has(s, "dynamicRef") /\ dr = "2020"
       dynSt == IF dynOn THEN Designates(U, dr, a, s.dynamicRef) ELSE NoTarget
@@ -165,15 +184,16 @@ Cv(U, dr, a, v, stack) ==
                   /\ ~(nC = 0 /\ (~Has(s, "minContains") \/ s.minContains > 0))
                   /\ Has(s, "minContains") => nC >= s.minContains
                   /\ Has(s, "maxContains") => nC <= s.maxContains
-      anns6 == [anns5 EXCEPT !.evIdx = @ \cup contIdx]
+      skipNote == MUT_Eval = "containsNoNote" /\ Has(s, "minContains") /\ s.minContains = 0 /\ ~Has(s, "maxContains")
+      anns6 == IF skipNote THEN anns5 ELSE [anns5 EXCEPT !.evIdx = @ \cup contIdx]
   IN
-  IF isArr /\ ~(prefOK /\ restOK /\ contOK /\ ArrCountsOK(s, v)) THEN F ELSE
+  IF isArr /\ ~(prefOK /\ restOK /\ contOK /\ ArrCountsOK(s, v)) THEN Fa(anns6) ELSE
   LET unevI == isArr /\ Has(s, "unevaluatedItems") /\ ~anns6.allItems
       unevIOK == unevI => \A i \in (anns6.endIndex + 1)..n :
                              i \notin anns6.evIdx => C(SegK("unevaluatedItems"), v.e[i]).ok
       anns7 == IF unevI THEN [anns6 EXCEPT !.allItems = TRUE] ELSE anns6
   IN
-  IF ~unevIOK THEN F ELSE
+  IF ~unevIOK THEN Fa(anns6) ELSE
   \* ---- objects ----
   IF v.t # "obj" THEN CR(TRUE, anns7) ELSE
   LET nms == Names(v)
@@ -196,17 +216,17 @@ Cv(U, dr, a, v, stack) ==
   LET anns8 == [anns7 EXCEPT !.evProps = @ \cup ev2]
       pnOK == Has(s, "propertyNames") => \A k \in nms : C(SegK("propertyNames"), Str(k)).ok
   IN
-  IF ~(pnOK /\ ObjCountsOK(dr, s, v)) THEN F ELSE
+  IF ~(pnOK /\ ObjCountsOK(dr, s, v)) THEN Fa(anns8) ELSE
   LET depKW == IF dr = "2020" THEN "dependentSchemas" ELSE "depSchemas"
       depR == IF Has(s, depKW) THEN DepFold(U, dr, a, v, st, depKW, anns8) ELSE CR(TRUE, anns8)
   IN
-  IF ~depR.ok THEN F ELSE
+  IF ~depR.ok THEN Fa(anns8) ELSE
   LET unevP == Has(s, "unevaluatedProperties") /\ ~depR.anns.allProps
       unevPOK == unevP => \A k \in nms : k \notin depR.anns.evProps =>
                              C(SegK("unevaluatedProperties"), v.m[k]).ok
       anns9 == IF unevP THEN [depR.anns EXCEPT !.allProps = TRUE] ELSE depR.anns
   IN
-  IF ~unevPOK THEN F ELSE CR(TRUE, anns9)
+  IF ~unevPOK THEN Fa(depR.anns) ELSE CR(TRUE, anns9)
 
 \* Resolved.Validate: refuse unsupported $schema values, else validate with an empty stack
 CvTop(U, v) == IF DrOf(U) = "refused" THEN CR(FALSE, NoAnns) ELSE Cv(U, DrOf(U), Addr(1, <<>>), v, <<>>)
